@@ -124,26 +124,26 @@ def write_raw(net, cw=1, cz=1, windv2=1.0, ixfr=True):
     kv = {b['idx']: b['Vn'] for b in net['buses']}
     slack_bus = set(g['bus'] for g in net['slacks'] if g['u'])
     pv_bus = set(g['bus'] for g in net['pvs'] if g['u'])
-    out = ['0, %.6f, 33, 0, 1, 60.00 / verif generated' % mva, 'generated case', '']
+    out = ['0, %.17g, 33, 0, 1, 60.00 / verif generated' % mva, 'generated case', '']
     ref_angle = {g['bus']: g.get('a0', 0.0) for g in net['slacks'] if g['u']}
     for b in net['buses']:
         ty = 3 if b['idx'] in slack_bus else (2 if b['idx'] in pv_bus else 1)
-        out.append("%d,'B%-6d',%.4f,%d,1,1,1,%.6f,%.12f" % (b['idx'], b['idx'], b['Vn'], ty, 1.0, ref_angle.get(b['idx'], 0.0) / DEG))
+        out.append("%d,'B%-6d',%.17g,%d,1,1,1,%.17g,%.17g" % (b['idx'], b['idx'], b['Vn'], ty, 1.0, ref_angle.get(b['idx'], 0.0) / DEG))
     out.append('0 / END OF BUS DATA, BEGIN LOAD DATA')
     for k, d in enumerate(net['pqs']):
-        out.append("%d,'%d',%d,1,1,%.10f,%.10f,0.0,0.0,0.0,0.0,1" % (d['bus'], k % 90 + 1, d['u'], d['p0'] * mva, d['q0'] * mva))
+        out.append("%d,'%d',%d,1,1,%.17g,%.17g,0.0,0.0,0.0,0.0,1" % (d['bus'], k % 90 + 1, d['u'], d['p0'] * mva, d['q0'] * mva))
     out.append('0 / END OF LOAD DATA, BEGIN FIXED SHUNT DATA')
     for k, d in enumerate(net['shunts']):
-        out.append("%d,'%d',%d,%.10f,%.10f" % (d['bus'], k % 90 + 1, d['u'], d['g'] * mva, d['b'] * mva))
+        out.append("%d,'%d',%d,%.17g,%.17g" % (d['bus'], k % 90 + 1, d['u'], d['g'] * mva, d['b'] * mva))
     out.append('0 / END OF FIXED SHUNT DATA, BEGIN GENERATOR DATA')
     for g in net['slacks'] + net['pvs']:
-        out.append("%d,'1',%.10f,%.10f,999.0,-999.0,%.6f,0,%.4f,0.0,0.3,0.0,0.0,1.0,%d,100.0,9999.0,-9999.0,1,1.0"
+        out.append("%d,'1',%.17g,%.17g,999.0,-999.0,%.17g,0,%.17g,0.0,0.3,0.0,0.0,1.0,%d,100.0,9999.0,-9999.0,1,1.0"
                    % (g['bus'], g['p0'] * mva, g['q0'] * mva, g['v0'], g['Sn'], g['u']))
     out.append('0 / END OF GENERATOR DATA, BEGIN BRANCH DATA')
     lines = [ln for ln in net['lines'] if ln['tap'] == 1.0 and ln['phi'] == 0.0]
     xfr = [ln for ln in net['lines'] if not (ln['tap'] == 1.0 and ln['phi'] == 0.0)]
     for k, ln in enumerate(lines):
-        out.append("%d,%d,'%d',%.12f,%.12f,%.12f,0.0,0.0,0.0,%.12f,%.12f,%.12f,%.12f,%d,0.0,1,1.0"
+        out.append("%d,%d,'%d',%.17g,%.17g,%.17g,0.0,0.0,0.0,%.17g,%.17g,%.17g,%.17g,%d,0.0,1,1.0"
                    % (ln['bus1'], ln['bus2'], k % 90 + 1, ln['r'], ln['x'], ln['b'], ln['g1'], ln['b1'], ln['g2'], ln['b2'], ln['u']))
     out.append('0 / END OF BRANCH DATA, BEGIN TRANSFORMER DATA')
     for k, ln in enumerate(xfr):
@@ -169,10 +169,10 @@ def write_raw(net, cw=1, cz=1, windv2=1.0, ixfr=True):
         if cz == 2:
             sb12 = 250.0
             r, x = r * (sb12 / mva), x * (sb12 / mva)
-        out.append("%d,%d,0,'%d',%d,%d,1,%.10f,%.10f,2,'T%-6d',%d,1,1.0" % (i, j, k % 90 + 1, cw, cz, ln['g1'], ln['b1'], k, ln['u']))
-        out.append("%.12f,%.12f,%.4f" % (r, x, sb12))
-        out.append("%.10f,%.4f,%.8f,0.0,0.0,0.0,0,0,1.1,0.9,1.1,0.9,33,0,0.0,0.0" % (w1, n1, ln['phi'] / DEG))
-        out.append("%.10f,%.4f" % (w2, n2))
+        out.append("%d,%d,0,'%d',%d,%d,1,%.17g,%.17g,2,'T%-6d',%d,1,1.0" % (i, j, k % 90 + 1, cw, cz, ln['g1'], ln['b1'], k, ln['u']))
+        out.append("%.17g,%.17g,%.17g" % (r, x, sb12))
+        out.append("%.17g,%.17g,%.17g,0.0,0.0,0.0,0,0,1.1,0.9,1.1,0.9,33,0,0.0,0.0" % (w1, n1, ln['phi'] / DEG))
+        out.append("%.17g,%.17g" % (w2, n2))
     out.append('0 / END OF TRANSFORMER DATA, BEGIN AREA DATA')
     for sec in ('AREA', 'TWO-TERMINAL DC', 'VSC DC', 'IMPEDANCE CORRECTION', 'MULTI-TERMINAL DC', 'MULTI-SECTION LINE', 'ZONE',
                 'INTER-AREA TRANSFER', 'OWNER', 'FACTS', 'SWITCHED SHUNT', 'GNE'):
@@ -199,23 +199,23 @@ def write_m(net):
             bs[d['bus']] = bs.get(d['bus'], 0.0) + d['b'] * mva
     slack_bus = set(g['bus'] for g in net['slacks'] if g['u'])
     pv_bus = set(g['bus'] for g in net['pvs'] if g['u'])
-    out = ['function mpc = generated', "mpc.version = '2';", 'mpc.baseMVA = %.6f;' % mva, 'mpc.bus = [']
+    out = ['function mpc = generated', "mpc.version = '2';", 'mpc.baseMVA = %.17g;' % mva, 'mpc.bus = [']
     ref_angle = {g['bus']: g.get('a0', 0.0) for g in net['slacks'] if g['u']}
     for b in net['buses']:
         i = b['idx']
         ty = 3 if i in slack_bus else (2 if i in pv_bus else 1)
-        out.append('\t%d\t%d\t%.10f\t%.10f\t%.10f\t%.10f\t1\t1.0\t%.12f\t%.4f\t1\t1.1\t0.9;'
+        out.append('\t%d\t%d\t%.17g\t%.17g\t%.17g\t%.17g\t1\t1.0\t%.17g\t%.17g\t1\t1.1\t0.9;'
                    % (i, ty, pd.get(i, 0.0), qd.get(i, 0.0), gs.get(i, 0.0), bs.get(i, 0.0), ref_angle.get(i, 0.0) / DEG, b['Vn']))
     out.append('];')
     out.append('mpc.gen = [')
     for g in net['slacks'] + net['pvs']:
-        out.append('\t%d\t%.10f\t%.10f\t999\t-999\t%.6f\t%.4f\t%d\t9999\t-9999\t0\t0\t0\t0\t0\t0\t0\t0\t0\t0\t0;'
+        out.append('\t%d\t%.17g\t%.17g\t999\t-999\t%.17g\t%.17g\t%d\t9999\t-9999\t0\t0\t0\t0\t0\t0\t0\t0\t0\t0\t0;'
                    % (g['bus'], g['p0'] * mva, g['q0'] * mva, g['v0'], mva, g['u']))
     out.append('];')
     out.append('mpc.branch = [')
     for ln in net['lines']:
         ratio = 0.0 if (ln['tap'] == 1.0 and ln['phi'] == 0.0) else ln['tap']
-        out.append('\t%d\t%d\t%.12f\t%.12f\t%.12f\t0\t0\t0\t%.10f\t%.10f\t%d\t-360\t360;'
+        out.append('\t%d\t%d\t%.17g\t%.17g\t%.17g\t0\t0\t0\t%.17g\t%.17g\t%d\t-360\t360;'
                    % (ln['bus1'], ln['bus2'], ln['r'], ln['x'], ln['b'], ratio, ln['phi'] / DEG, ln['u']))
     out.append('];')
     return '\n'.join(out) + '\n'
